@@ -133,10 +133,13 @@ where
                 return x;
             }
 
-            let t = (F::one() + F::one() / x).powf(self.s_minus_1);
+            // `t - 1` computed directly: for large `x`, `(1 + 1/x)^(s-1) - 1` cancels
+            // catastrophically (it is exactly 0 once `1 + 1/x` rounds to 1).
+            let t_minus_1 = (self.s_minus_1 * (F::one() / x).ln_1p()).exp_m1();
+            let t = t_minus_1 + F::one();
 
             let v = rng.sample(StandardUniform);
-            if v * x * (t - F::one()) * self.b <= t * (self.b - F::one()) {
+            if v * x * t_minus_1 * self.b <= t * (self.b - F::one()) {
                 return x;
             }
         }
